@@ -53,15 +53,19 @@ def cases(tier, seed):
                 if tier == "thorough" and R <= 3:
                     combos = list(itertools.product(PVARS, REFS, b["numrec"]))
                 for pv, ref, numrec in combos:
-                    out.append(dict(hist=[list(h) for h in hist], layout=layout, period=period, pvars=pv, ref=ref, numrec=numrec))
+                    out.append(dict(hist=[list(h) for h in hist], layout=layout, period=period, pvars=pv, ref=ref, numrec=numrec, packed=bool((idx // 5) % 2)))
                     # the same history in a time-reversed run: all histories up to 2 records, every fourth (every one in thorough) beyond
                     if R <= 2 or tier == "thorough" or idx % 4 == 0:
-                        out.append(dict(hist=[list(h) for h in hist], layout=layout, period=period, pvars=pv, ref=ref, numrec=numrec, rev=True))
+                        out.append(dict(hist=[list(h) for h in hist], layout=layout, period=period, pvars=pv, ref=ref, numrec=numrec, rev=True, packed=bool((idx // 7) % 2)))
     # beyond the small lattice: a crowd (a death among hundreds must still be removed) and a reference time in another century
     for layout, (crowd, death) in itertools.product(b["layouts"], [(300, "low"), (700, "high"), (120, "low")]):
         out.append(dict(hist=[[crowd, death], [0, "high"], [1, "none"], [0, "low"]], layout=layout, period=1, pvars="float", ref="default", numrec=2))
     for layout, pv, rev in itertools.product(b["layouts"], ["time", "none"], [False, True]):
         out.append(dict(hist=[[2, "low"], [1, "none"], [0, "high"]], layout=layout, period=2, pvars=pv, ref="far", numrec=0, rev=rev))
+    # two set-ups run one after the other in one process from the SAME variable-definition dictionaries (a script looping over experiments),
+    # the second with another reference time: nothing of the first run may stick to the tables
+    for layout, pv, numrec in itertools.product(b["layouts"], ["time", "float"], b["numrec"]):
+        out.append(dict(hist=[[2, "none"], [1, "low"], [1, "none"]], layout=layout, period=1, pvars=pv, ref="earlier", numrec=numrec, twice=True))
     return out
 
 
@@ -98,6 +102,20 @@ def is_fill(x):
 
 
 def run_case(case):
+    if not case.get("twice"):
+        return _run_once(case)
+    tables = {}
+    r1 = _run_once(case, tables=tables)
+    r2 = _run_once(case, tables=tables, ref_override=S0 - 86400 * 11 - 5)
+    for v in r2["viol"]:
+        v["sig"] = "second-run-in-process:" + v["sig"]
+        v["msg"] = "second run in the same process, built from the same variable-definition dictionaries with another reference time: " + v["msg"]
+    r1["viol"] = r1["viol"] + r2["viol"]
+    r1["evals"] = r1.get("evals", 1) + r2.get("evals", 1)
+    return r1
+
+
+def _run_once(case, tables=None, ref_override=None):
     from netCDF4 import Dataset
 
     pl = plan(case)
@@ -105,24 +123,30 @@ def run_case(case):
     sign = -1 if case.get("rev") else 1
     d = util.scratch("c06")
     refsec = dict(default=None, earlier=S0 - 86400 * 3 - 11, later=S0 + 3600, far=world.tosec(FAR))[case["ref"]]
+    if ref_override is not None:
+        refsec = ref_override
     state = dict(instance_variables=dict(age="float"), default_values=dict(age=0.0))
-    pout = {}
+    pout = {} if tables is None else tables.setdefault("pout", {})
     if case["pvars"] != "none":
         state["particle_variables"] = dict(weight="float")
-        pout["weight"] = world.ovar("f8", long_name="w")
+        pout.setdefault("weight", world.ovar("f8", long_name="w"))  # setdefault: with shared tables the second run re-uses the first run's objects
     else:
         for r in pl["rows"]:
             r.pop("weight")
     if case["pvars"] == "time":
         state["particle_variables"]["release_time"] = "time"
-        pout["release_time"] = world.ovar("f8", units="seconds since reference_time")
+        pout.setdefault("release_time", world.ovar("f8", units="seconds since reference_time"))
     conf = drive.analytic_conf(
         d, S0, S0 + sign * pl["nsteps"] * DT, DT, pl["rows"], reversed_=sign < 0, outvars=("pid", "X", "Y", "Z", "age"), period=P * DT, numrec=numrec,
         layout=layout, field="const", params=dict(a=0.125 / DT, b=-0.0625 / DT, L=100.0), state=state,
         ibm=dict(module=drive.plug("sibm.py"), kills={str(k): v for k, v in pl["kills"].items()}, age=True),
         particle_out=pout or None, reference=refsec,
     )
-    tag = f"hist={case['hist']} {'reversed ' if sign < 0 else ''}{layout} P={P} pvars={case['pvars']} ref={case['ref']} numrec={numrec}"
+    if case.get("packed"):  # X stored packed (16-bit integers, scale 1/64): every position of this scenario is a multiple of 1/64, so the packing is exact
+        conf["output"]["instance_variables"]["X"] = world.ovar("i2", scale_factor=0.015625)
+    if tables is not None:
+        conf["output"]["instance_variables"] = tables.setdefault("inst", conf["output"]["instance_variables"])
+    tag = f"hist={case['hist']} {'reversed ' if sign < 0 else ''}{layout} P={P} pvars={case['pvars']} ref={case['ref']} numrec={numrec}{' packed-X' if case.get('packed') else ''}"
     died_before_later_record = any(pl["kills"].get(i * P) for i in range(len(case["hist"]) - 1))
     nontrivial = int(died_before_later_record and any(pl["rec_living"]))
     viols = []
@@ -131,7 +155,7 @@ def run_case(case):
         viols.append(util.viol(sig, f"{tag}: {msg}", case))
 
     try:
-        model = drive.run_model(conf, d)
+        model = drive.run_model(conf, d, share_tables=tables is not None)
     except drive.RunFailed as e:
         empty_at_end = not pl["rec_living"][-1]
         sig = f"crash:{e.kind}" + (":empty-state-at-file-end" if empty_at_end else "")
@@ -184,6 +208,8 @@ def run_case(case):
         else:
             for v in ("X", "Y", "Z", "age"):
                 row = np.ma.asarray(r["vars"][v])
+                if case.get("packed") and v == "X":  # the reader does not mask: the default fill of a 16-bit integer shows as -32767 * scale_factor
+                    row = np.ma.masked_values(row, -32767 * 0.015625)
                 exp = dict(zip(spid, snap["vars"][v][alive].tolist()))
                 for pid in range(max(len(row), pl["released"][i])):
                     val = row[pid] if pid < len(row) else np.ma.masked
